@@ -30,6 +30,21 @@ class PyModules:
     def load(self, modname: str) -> Any:
         if modname in self.loaded:
             return self.loaded[modname]
+        if not modname.isidentifier():
+            # `sensor.v2_bp.py`, `my-proto_bp.py`: a file a user can only load by path (never imported by generated code,
+            # because a schema that is imported gets an importable name)
+            import importlib.util as _ilu
+
+            path = os.path.join(self.directory, modname + ".py")
+            safe = "bpverif_bypath_" + "".join(ch if ch.isalnum() else "_" for ch in modname)
+            sys.modules.pop(safe, None)
+            spec = _ilu.spec_from_file_location(safe, path)
+            assert spec is not None and spec.loader is not None, path
+            mod = _ilu.module_from_spec(spec)
+            sys.modules[safe] = mod
+            spec.loader.exec_module(mod)
+            self.loaded[modname] = mod
+            return mod
         if modname in sys.modules:
             # a stale module of the same name from an earlier case must never be used
             f = getattr(sys.modules[modname], "__file__", "") or ""
